@@ -5,8 +5,11 @@ import (
 	"errors"
 	"fmt"
 	"math"
+	"runtime"
 	"strconv"
 	"strings"
+	"sync"
+	"time"
 
 	"gaeaverif/harness/core"
 
@@ -33,6 +36,7 @@ func init() {
 		Trivial: func(in core.Sexp, out string) bool {
 			return !strings.Contains(out, "(v ")
 		},
+		Extra: c34Concurrent,
 		Assumptions: []string{
 			"the fake master connection reproduces mycat_seq_nextval: UPDATE current_value = current_value + increment, then concat(current_value, ',', increment); '-999999999,null' for a missing row; MySQL error 1690 when the BIGINT sum is out of range",
 			"one NextSeq call is one atomic step (the whole body runs under the per-proxy mutex; the UPDATE is atomic at the database)",
@@ -114,6 +118,96 @@ func (c *seqConn) Execute(sql string, maxRows int) (*mysql.Result, error) {
 		return nil, err
 	}
 	return &mysql.Result{Resultset: &mysql.Resultset{Fields: field, Values: [][]interface{}{{[]byte(ret)}}}}, nil
+}
+
+// ---- concurrent sessions on one proxy ---------------------------------------
+//
+// The model treats one NextSeq call as one atomic step (assumption 2). This
+// whole-run check looks for a failure of that assumption: several sessions call
+// NextSeq on the same proxies at the same time, against a database whose
+// nextval is atomic but whose reply is delivered after a scheduling point.
+
+type seqLockedPool struct {
+	backend.ConnectionPool
+	mu  *sync.Mutex
+	row *seqRow
+}
+
+func (p *seqLockedPool) Get(ctx context.Context) (backend.PooledConnect, error) {
+	return &seqLockedConn{p: p}, nil
+}
+
+type seqLockedConn struct {
+	backend.PooledConnect
+	p *seqLockedPool
+}
+
+func (c *seqLockedConn) Recycle()              {}
+func (c *seqLockedConn) UseDB(db string) error { return nil }
+func (c *seqLockedConn) Execute(sql string, maxRows int) (*mysql.Result, error) {
+	c.p.mu.Lock()
+	c.p.row.current += c.p.row.increment
+	ret := strconv.FormatInt(c.p.row.current, 10) + "," + strconv.FormatInt(c.p.row.increment, 10)
+	c.p.mu.Unlock()
+	runtime.Gosched() // the reply travels; other sessions run meanwhile
+	time.Sleep(20 * time.Microsecond)
+	return &mysql.Result{Resultset: &mysql.Resultset{Fields: []*mysql.Field{{Name: []byte("seq_val")}},
+		Values: [][]interface{}{{[]byte(ret)}}}}, nil
+}
+
+func c34Concurrent(r *core.Run) {
+	rounds := 6
+	if r.Tier != "quick" {
+		rounds = 40
+	}
+	dups := 0
+	var first string
+	for round := 0; round < rounds && dups == 0; round++ {
+		incr := int64(1 + round%3)
+		row := &seqRow{present: true, current: 100, increment: incr}
+		pool := &seqLockedPool{mu: &sync.Mutex{}, row: row}
+		slice := &backend.Slice{Master: &backend.DBInfo{Nodes: []*backend.NodeInfo{{
+			Address: "fake:3306", ConnPool: pool, Status: backend.StatusUp}}}}
+		proxies := []*sequence.MySQLSequence{
+			sequence.NewMySQLSequence(slice, "GLOBAL", "id", 0),
+			sequence.NewMySQLSequence(slice, "GLOBAL", "id", 0),
+		}
+		var mu sync.Mutex
+		seen := map[int64]string{}
+		var wg sync.WaitGroup
+		for p := range proxies {
+			for s := 0; s < 4; s++ {
+				wg.Add(1)
+				go func(p, s int) {
+					defer wg.Done()
+					defer func() { recover() }()
+					for i := 0; i < 150; i++ {
+						v, err := proxies[p].NextSeq()
+						if err != nil {
+							continue
+						}
+						who := fmt.Sprintf("proxy %d session %d", p, s)
+						mu.Lock()
+						if prev, ok := seen[v]; ok {
+							dups++
+							if first == "" {
+								first = fmt.Sprintf("value %d handed out twice (increment %d): first to %s, then to %s", v, incr, prev, who)
+							}
+						}
+						seen[v] = who
+						mu.Unlock()
+					}
+				}(p, s)
+			}
+		}
+		wg.Wait()
+	}
+	r.Note("concurrent sessions: %d rounds of 2 proxies x 4 sessions x 150 NextSeq calls, duplicates: %d", rounds, dups)
+	if dups > 0 {
+		r.AddViolation(core.Finding{Kind: "failing-input", Class: "duplicate-value-under-concurrent-sessions",
+			Input: "(concurrent 2-proxies 4-sessions-each 150-calls block sizes 1-3)", Impl: first,
+			Detail: "whole-run check: several sessions calling NextSeq on the same proxies at the same time; " + first})
+	}
 }
 
 func execC34(in core.Sexp) string {
